@@ -17,6 +17,13 @@ class MessageHead(packet.Packet):
         ''' remove padding from payload list after disect() completes '''
         formats.remove_padding(self)
 
+        if isinstance(self.payload, packet.NoPayload):
+            # a message type without any fields (KEEPALIVE) is complete
+            # with no octets left to trigger payload dissection
+            cls = self.guess_payload_class(b'')
+            if issubclass(cls, formats.NoPayloadPacket) and not cls.fields_desc:
+                self.add_payload(cls())
+
         if not self.payload:
             raise formats.VerifyError('Message without payload')
         if isinstance(self.payload, packet.Raw):
